@@ -34,7 +34,10 @@ ANCHORS = [
 REQUIRED_ANCHORS = ANCHORS
 REQUIRED = ["roundtrips", "molgraph_roundtrips", "desc:Tetrahedral", "desc:Tetrahedral+lone-pair", "desc:SquarePlanar", "desc:TrigonalBipyramidal", "desc:Octahedral", "ez_roundtrips", "ez_descriptors", "adjacent_centres"]
 CASE_TIMEOUT = 120
-EZ = ["F/C=C/Cl", "F/C=C\\Cl", "C/C=C/C", "C/C=C\\C", "C/C(F)=C(/Cl)C", "CC/C=C/CO", "OC/C=C\\CC", "C/C=C/CC/C=C\\C", "CC(/C=C/C)O", "Cl/C=C/CC(C)C", "C1CC/C=C\\CCC1", "C/C=C(/C)CC", "N/C=C/C", "CS/C=C\\C"]
+EZ = ["F/C=C/Cl", "F/C=C\\Cl", "C/C=C/C", "C/C=C\\C", "C/C(F)=C(/Cl)C", "CC/C=C/CO", "OC/C=C\\CC", "C/C=C/CC/C=C\\C", "CC(/C=C/C)O", "Cl/C=C/CC(C)C", "C1CC/C=C\\CCC1", "C/C=C(/C)CC", "N/C=C/C", "CS/C=C\\C",
+      # double bonds with a lone-pair end (placeholder descriptors), alone and next to an ordinary alkene elsewhere in the molecule
+      "C/C=N/O", "C/C=N\\O", "C/C=N/C", "C/C=N\\C", "C/N=N/C", "C/N=N\\C", "O/N=C/CC/C=C/C", "O/N=C/CC/C=C\\C", "O/N=C\\CC/C=C/C", "O/N=C\\CC/C=C\\C",
+      "C/N=C/CC/C=C/C", "C/C=C/CC/N=N/C", "C/C=C\\CC/N=N/C", "CC/C(CC/C=C/C)=N\\O", "C/C=C/CC/C=N/N", "F/C=C/CC/C=N/OC", "F/C=C\\CCC(/C)=N/O"]
 
 
 def _ids(rng, n, family):
@@ -53,6 +56,35 @@ def _ids(rng, n, family):
     if kind == "mixed":
         return [x for x in rng.sample(range(-(10**6), 10**6), n + 1) if x != 0][:n]
     return rng.sample(range(1, 3 * n + 5), n)
+
+
+def _random_isolated_ez(rng):
+    """a stereoisomer of a random molecule (molgen) with >= 1 labelled E/Z double bond, all of whose multiple bonds are
+    isolated: no atom of a multiple bond has a neighbour in another multiple bond or an aromatic ring"""
+    from rdkit import Chem
+
+    from .. import molgen
+
+    for _ in range(30):
+        m = molgen.random_mol(rng, n_heavy=(5, 14), p_double=0.3, p_triple=0.0, p_ring=0.35, elements=[6] * 8 + [7, 7, 8, 8, 16, 9, 17])
+        if m is None or any(a.GetIsAromatic() for a in m.GetAtoms()):
+            continue
+        multi = [b for b in m.GetBonds() if b.GetBondType() != Chem.BondType.SINGLE]
+        in_multi = {x for b in multi for x in (b.GetBeginAtomIdx(), b.GetEndAtomIdx())}
+        ok = bool(multi)
+        for b in multi:
+            ends = (b.GetBeginAtomIdx(), b.GetEndAtomIdx())
+            for x in ends:
+                for nb in m.GetAtomWithIdx(x).GetNeighbors():
+                    if nb.GetIdx() not in ends and nb.GetIdx() in in_multi:
+                        ok = False
+        if not ok:
+            continue
+        iso = molgen.stereoisomers(Chem.MolToSmiles(m), rng, max_isomers=6)
+        iso = [s for s in iso if "/" in s or "\\" in s]
+        if iso:
+            return rng.choice(iso)
+    return None
 
 
 def gen_cases(ctx):
@@ -91,6 +123,12 @@ def gen_cases(ctx):
             skel = c12.SKELETONS[(i // 8) % len(c12.SKELETONS)]
             iso = c12.isomers(skel)
             yield {"kind": "organic", "smiles": iso[rng.randrange(len(iso))], "idfam": idfam, "iseed": rng.randrange(1 << 30), "bo": False}
+            continue
+        elif (i // 8) % 3 == 2:  # random molecule whose double bonds are isolated from every other multiple bond
+            smi = _random_isolated_ez(rng)
+            if smi is None:
+                continue
+            yield {"kind": "ez", "smiles": smi, "idfam": idfam, "iseed": rng.randrange(1 << 30), "bo": True, "random_molecule": True}
             continue
         else:
             yield {"kind": "ez", "smiles": EZ[(i // 8) % len(EZ)], "idfam": idfam, "iseed": rng.randrange(1 << 30), "bo": True}
